@@ -15,8 +15,9 @@ CHECKS = {
             'death, checked against an omniscient ground-truth log.', F + 'ground-truth oracle'),
     'C02': ('exploration', '5 C02',
             'Differential: thread, process and remote worker created in the same simulated run for generated targets / values '
-            '(0 B - 4 MiB straddling the drawn pipe and TCP capacities) and compared with the direct call and with each other; a '
-            'wait() that never returns is a verdict (quiescence / simulated deadline), not a timeout.', E + 'differential oracle vs direct call'),
+            '(0 B - 4 MiB straddling the drawn pipe and TCP capacities) and compared with the direct call and with each other, '
+            'waited for by one untimed wait(), by a polling loop of timed waits or by polling is_alive(), optionally with the '
+            'parent-side receiver thread stalled; a wait() that never returns is a verdict (quiescence / simulated deadline).', E + 'differential oracle vs direct call'),
     'C03': ('fault_enumeration', '5 C03',
             'One graceful terminate released exactly when the victim thread is at each enumerated delivery point (function entry, '
             'after a C call, backward jump, return of a blocking call) from constructor-returned to exit, six classes x cooperative '
@@ -24,11 +25,12 @@ CHECKS = {
             F + 'landing-site ground truth'),
     'C04': ('exploration', '5 C04',
             'Histories of wait/terminate/is_alive/close on cooperative, exception-swallowing, sleeping, interpreter-lock-holding, '
-            'SIGSTOPped, finished and never-run workers under both clock modes; oracle: simulated-time bound, truthfulness against '
+            'SIGSTOPped, lingering (result delivered, process still alive), finished and never-run workers under both clock modes; oracle: simulated-time bound, truthfulness against '
             'the simulated process table, idempotence on dead workers, forced kill.', E + 'simulated clock + process table oracle'),
     'C05': ('exploration', '5 C05',
             'Model-based: histories of enqueue / next_result / results_iter / call / close / wait on the three persistent kinds '
-            'with list or tuple defaults and argument-mutating targets, every value compared with a list model on pristine copies.',
+            'with list or tuple defaults and argument-mutating targets, optionally with the caller stalled at a line inside the API '
+            'call (slow caller) and a directed close-then-consume family; every value compared with a list model on pristine copies.',
             E + 'reference (list) model'),
     'C06': ('fault_enumeration', '5 C06',
             'terminate / SIGKILL / SIGTERM / poison item at every enumerated point of the child loop and child kill at every line of '
@@ -43,17 +45,20 @@ CHECKS = {
             'the process table, partial results genuine and unique, missing inputs explained by probe-recorded hand-outs.',
             E + 'process-table + ground-truth oracle'),
     'C09': ('exploration', '5 C09',
-            'Pool life-cycle histories (add / attach / run / restart_workers / kill / stuck worker / failing registration or '
-            'construction / exception in with-body / close / terminate) x close_timeout x force; oracle: no child process survives '
-            'the pool, per-run result multisets, nothing leaked by failed add_worker.', E + 'process-table oracle over histories'),
+            'Pool life-cycle histories (add / attach / run / run with an input fatal to every worker / restart_workers with and '
+            'without stuck workers / kill / stuck worker / failing registration or construction / exception in with-body / close / '
+            'terminate) x close_timeout x force; oracle: no child process survives the pool (pool workers and the whole process '
+            'table), old children gone after a successful restart, per-run result multisets, nothing leaked by failed add_worker.', E + 'process-table oracle over histories'),
     'C10': ('fault_enumeration', '5 C10',
             'send_msg/recv_msg over a scripted transport: every segmentation of short streams, every single / near-boundary double '
             'cut, 1-byte reads, every truncation offset x {FIN, RST}; plus sender and receiver threads on simulated TCP with seeded '
-            'segmentation, latency, small buffers and peer close at an offset.', F + 'sequence-equality / prompt-error oracle'),
+            'segmentation, latency, small buffers, peer close at an offset, and handled signals arriving while the sender is '
+            'blocked mid-message (short send counts).', F + 'sequence-equality / prompt-error oracle'),
     'C11': ('fault_enumeration', '5 C11',
             'Real server on simos; the byte stream of a well-behaved client (recorded in the same run) replayed by a raw-socket '
             'client and cut at enumerated offsets with FIN/RST, plus faulty control-handshake steps, with a concurrent healthy '
-            'worker and sequences of faulty clients; oracle: server alive and a fresh round trip succeeds after every fault.',
+            'worker and sequences of faulty clients; oracle: server alive, a fresh plain round trip and a fresh request of the '
+            'faulty client\'s kind (same context) succeed after every fault.',
             F + 'liveness oracle (fresh round trip within a simulated deadline)'),
     'C12': ('exploration', '5 C12',
             '0-4 remote children in mixed states, stop by terminate() or SIGTERM at seeded / directed instants (while a worker is '
@@ -75,8 +80,8 @@ CHECKS = {
             'gone from the process table, fresh stream of fresh unique inputs only, RuntimeError only when unstoppable.',
             E + 'process-table + fresh-stream oracle'),
     'C18': ('exploration', '5 C18',
-            'Histories over context ids {1,2,3} (create, duplicate, delete, delete unknown, workers in known / unknown contexts, '
-            'enqueue, wait) on the real server and real context helper processes; dictionary model of the context table plus a fresh '
+            'Histories over context ids {1,2,3} (create, duplicate, delete, delete unknown, repeated close / wait / terminate on '
+            'handles of deleted contexts whose id was registered again, workers in known / unknown contexts, enqueue, wait) on the real server and real context helper processes; dictionary model of the context table plus a fresh '
             'round trip after every operation.', E + 'reference (dictionary) model'),
     'C19': ('exploration', '5 C19',
             'Histories of create / wait / terminate / restart / active_children() from 1-3 simulated caller threads with an optional '
@@ -84,7 +89,8 @@ CHECKS = {
             E + 'interval oracle'),
     'C20': ('fault_enumeration', '5 C20',
             'Scripted server peer cutting both handshake messages at enumerated offsets with FIN/RST, refused control connection, '
-            'unknown context, spawn failure, server / child killed at every line reached during the constructor; oracle: constructor '
+            'unknown context, spawn failure, server / child killed at every line reached during the constructor (lines of the '
+            'stdlib Connection code included), the server process worker itself killed at every line of its start-up; oracle: constructor '
             'returns or raises within a simulated deadline, id names a started child, failed construction leaves no process.',
             F + 'hang = simulated deadline / quiescence'),
 }
@@ -133,7 +139,8 @@ def main():
                   'source_commits': [], 'add_only': True},
         'engines': [{'name': 'simos', 'path': 'simos/', 'serves_properties': sorted(CHECKS),
                      'kind_free_text': 'in-process deterministic OS simulator (baton-passing host threads, sys.monitoring '
-                                       'pre-emption, simulated processes / pipes / TCP / signals / clock) + fork-per-run driver'}],
+                                       'pre-emption, simulated processes / pipes / TCP / signals / clock; stdlib queue / Condition / Connection '
+                                       'Python code runs under it) + fork-per-run driver'}],
         'checks': checks,
         'not_applicable': na,
         'notes': 'All checks: exit 0 = held (KNOWN-FINDING lines for listed findings), 1 = VIOLATION line with replay file, '
